@@ -1409,7 +1409,8 @@ class Kconfig(object):
                 if match:
                     name, val = match.groups()
                     sym = get_sym(name)
-                    if not sym and in_deprecated_block:
+                    if (not sym or not sym.nodes) and in_deprecated_block:
+                        # (a name that some Kconfig expression still mentions already has a node-less Symbol)
                         sym = _create_new_deprecated_symbol(name, val)
                         value_is_default = False
                         continue
@@ -1511,7 +1512,7 @@ class Kconfig(object):
 
                     name = match.group(1)
                     sym = get_sym(name)
-                    if not sym and in_deprecated_block:
+                    if (not sym or not sym.nodes) and in_deprecated_block:
                         sym = _create_new_deprecated_symbol(name, "n")
                         value_is_default = False
 
